@@ -146,6 +146,45 @@ func buildSource(t testing.TB, seed int64, ops []c20Op) *c20Source {
 			_, _ = tp.Service.AppMetadataSend(ctx, &protocoltypes.AppMetadataSend_Request{GroupPk: g1.PublicKey, Payload: []byte("group metadata")})
 		case "deactivate-G1":
 			_, _ = tp.Service.DeactivateGroup(ctx, &protocoltypes.DeactivateGroup_Request{GroupPk: g1.PublicKey})
+		case "fork-G1":
+			// another member writes to G1 without having seen this node's entries (a concurrent branch): its
+			// entries reach this node through the stores' replication path, after which both logs have two heads
+			svc.lock.RLock()
+			gc := svc.openedGroups[string(g1.PublicKey)]
+			svc.lock.RUnlock()
+			if gc == nil {
+				break
+			}
+			side := &vWorld{t: t, ctx: ctx, seed: seed}
+			sd := &vDevice{w: side}
+			dsS := dsync.MutexWrap(ds.NewMapDatastore())
+			ssS, err := secretstore.NewSecretStore(dsS, nil)
+			vmust(err)
+			odbS, err := NewWeshOrbitDB(ctx, tp.IpfsCoreAPI, &NewOrbitDBOptions{NewOrbitDBOptions: orbitdb.NewOrbitDBOptions{Logger: zap.NewNop()}, SecretStore: ssS, Datastore: dsS})
+			vmust(err)
+			sd.ss, sd.odb, sd.ds = ssS, odbS, dsS
+			sgc := sd.open(g1)
+			_, err = sgc.MetadataStore().AddDeviceToGroup(ctx)
+			vmust(err)
+			_, err = sgc.MessageStore().AddMessage(ctx, []byte("message of another member, concurrent branch"))
+			vmust(err)
+			side.deliver(gc.MetadataStore(), logHashes(sgc.MetadataStore()))
+			side.deliver(gc.MessageStore(), logHashes(sgc.MessageStore()))
+			// the active group context answers the new member's announcement by sending it its chain key
+			// (asynchronously): wait for that entry, so that nothing is appended while the export runs
+			deadline := time.Now().Add(60 * time.Second)
+			for {
+				sent, _ := gc.MetadataStore().Index().(*metadataStoreIndex).areSecretsAlreadySent(sgc.MemberPubKey())
+				if sent {
+					break
+				}
+				if time.Now().After(deadline) {
+					panic("HARNESS: the active group did not answer the new member within 60s")
+				}
+				time.Sleep(5 * time.Millisecond)
+			}
+			_ = sgc.Close()
+			_ = odbS.Close()
 		}
 	}
 	cfg, err := tp.Service.ServiceGetConfiguration(ctx, &protocoltypes.ServiceGetConfiguration_Request{})
@@ -276,7 +315,7 @@ func TestVerifC20(t *testing.T) {
 		}
 	}()
 	seed := vrep.Seed()
-	alphabet := []c20Op{"contact-request", "contact-block", "join-activate-G1", "message-account", "message-G1", "metadata-G1", "deactivate-G1"}
+	alphabet := []c20Op{"contact-request", "contact-block", "join-activate-G1", "message-account", "message-G1", "metadata-G1", "deactivate-G1", "fork-G1"}
 	depth := 2
 	if vrep.Thorough() {
 		depth = 3
@@ -296,13 +335,15 @@ func TestVerifC20(t *testing.T) {
 					joined = true
 				}
 			}
-			if !joined && (o == "message-G1" || o == "metadata-G1" || o == "deactivate-G1") {
+			if !joined && (o == "message-G1" || o == "metadata-G1" || o == "deactivate-G1" || o == "fork-G1") {
 				continue
 			}
 			rec(append(cur, o))
 		}
 	}
 	rec(nil)
+	// forked logs need a message of this node and the concurrent branch: depth 3 histories, always included
+	hists = append(hists, []c20Op{"join-activate-G1", "message-G1", "fork-G1"}, []c20Op{"join-activate-G1", "fork-G1", "message-G1"}, []c20Op{"join-activate-G1", "fork-G1", "fork-G1"})
 	var wg sync.WaitGroup
 	sem := make(chan struct{}, 8)
 	var mu sync.Mutex
@@ -393,7 +434,16 @@ func c20CheckValid(rep *vrep.Report, t testing.TB, src *c20Source) {
 			viol("archive-heads-missing", "no heads file for open group "+k[:8])
 		}
 	}
-	rep.Eval(fmt.Sprintf("valid/archive-content/groups=%d", len(src.groups)))
+	maxHeads := 0
+	for _, snap := range src.groups {
+		if len(snap.metaHeads) > maxHeads {
+			maxHeads = len(snap.metaHeads)
+		}
+		if len(snap.msgHeads) > maxHeads {
+			maxHeads = len(snap.msgHeads)
+		}
+	}
+	rep.Eval(fmt.Sprintf("valid/archive-content/groups=%d/max-heads=%d", len(src.groups), maxHeads))
 	// (b) restore into an empty node
 	r := restoreInto(t, src, src.archive, false)
 	rep.AddTransitions(1)
